@@ -37,7 +37,9 @@ def r1(c):
     c.ob('expected-of-self', q.sem_is_name(b, q.sem(b, fn_.args[0]), 'self'), 'the expected function is that of the outstanding request', '', fn_.loc())
     s = q.sem(b, dh.args[2])
     c.ob('delegation/function', s.kind == 'call' and s.cs is fn_, 'the handler is told the expected function', repr(s), dh.loc())
-    c.ob('delegation/cursor', 'cursor' in q.chain_names(b, dh.args[1]) or q.is_name(b, dh.args[1], 'cursor'), 'the handler continues on the same cursor (after the function byte)', '', dh.loc())
+    cur_new = [cs for cs in b.calls('scursor::read::ReadCursor::new')]
+    cv = q.initial_value(b, q.sem(b, dh.args[1]))
+    c.ob('delegation/cursor', len(cur_new) == 1 and cv.kind == 'call' and cv.cs is cur_new[0] and not cv.proj and b.dominates(rd.ret, dh.node), 'the handler continues on the same cursor (after the function byte)', '', dh.loc())
     cur = [cs for cs in b.calls('scursor::read::ReadCursor::new')]
     c.ob('cursor/payload', len(cur) == 1 and q.is_name(b, cur[0].args[0], 'payload'), 'the cursor is over the reply payload', '', loc_of(b))
     # the mismatch edge returns get_error_for's value and nothing else
